@@ -72,11 +72,15 @@ def semi_tie(res):
 def run_prop(res, prop, extra_obligations=1):
     sp = SPEC[prop]
     semi = prop in ("C01", "C02")
+    t_ok, t_log = True, ""
     if semi:
         extra_obligations += 2          # the translation of the semicolon rule, and its tie
         t_ok, t_log = rs2v("semicolon_rule")
-    proof = proof_stage(res, prop, extra_obligations=extra_obligations) if (not semi or t_ok) else dict(ok=False, discharged=0, theorems=[], log=t_log, broken_at="rs2v: " + t_log.strip()[-300:])
-    if semi and not t_ok:
+    if prop == "C11":
+        extra_obligations += 1          # the translation of the quote chooser
+        t_ok, t_log = rs2v("quote_choice")
+    proof = proof_stage(res, prop, extra_obligations=extra_obligations) if t_ok else dict(ok=False, discharged=0, theorems=[], log=t_log, broken_at="rs2v: " + t_log.strip()[-300:])
+    if not t_ok:
         res.coverage.update(obligations=extra_obligations, discharged=0, checker_cmd="rs2v /repo coq/gen", trusted_base=list(TRUSTED_BASE))
     build_harness(); build_ml()
     ok, payloads = validate(res, prop, sp["judge"], sp["flags_a"], sp["flags_b"], sp["mode_a"], sp["mode_b"], region_a=sp.get("region_a", True), dirs=sp.get("dirs"))
